@@ -36,9 +36,18 @@ def sh(cmd, **kw):
 
 def candidates(path):
     out = []
+    in_verify = False
     for ln, line in enumerate(open(os.path.join(REPO, path), encoding="utf-8-sig").read().split("\n")):
         code = line.split("//")[0]
         st = code.strip()
+        # assert-only helpers (compiled only with FFSM2_ENABLE_ASSERT on MSVC) and the unreachable arms of bitWidth()
+        if re.search(r"::verifyPlans?\(\)", st):
+            in_verify = True
+        elif in_verify and line.startswith("}"):
+            in_verify = False
+            continue
+        if in_verify or re.search(r"v\s*>>\s*\d+\s*==\s*0\s*\?", st) or ">>::" in st:
+            continue
         if not st or st.startswith("#") or "FFSM2_ASSERT" in st or "static_assert" in st or st.startswith("template") or "FFSM2_CONSTEXPR" in st \
                 or st.startswith("typename") or st.startswith("using") or "operator" in st or "FFSM2_LOG" in st or "->" in st and "<" in st and ">" in st and "template" in st:
             continue
